@@ -310,6 +310,64 @@ def job_history_param(family, shape, hyper_a, hyper_b, edit_data=False):
     return res
 
 
+def job_path_effects(family, shape, batch_size=None, outer=2):
+    """the regularisation path is a training call like fit: it must hand the constructor hyper-parameters back as it found them
+    (so that a second path on the same object starts from the same penalty)"""
+    loader.install()
+    res = _new()
+
+    def setup():
+        core.CTX.merge_sign = True
+        return None
+
+    def body(_):
+        env = cm.PathEnv(family, shape, outer=outer, gemini="mmd_ova", batch_size=batch_size, max_iter=1, gemini_stub=True)
+        hp0 = dict(env.mdl.get_params())
+        env.run_path()
+        return hp0, dict(env.mdl.get_params())
+
+    ex = Explorer(max_paths=6)
+    tag = f"path-effects/{family}/{cm.shape_str(shape)}/bs{batch_size}/outer{outer}"
+    for out, pc, trace in ex.run(body, setup):
+        res["paths"] += 1
+        if isinstance(out, PathError):
+            res["obligations"].append({"name": tag + "/path-error", "verdict": "inconclusive", "how": repr(out)[:300]})
+            break
+        hp0, hp1 = out
+        changed = [k for k in hp0 if not (hp0[k] is hp1[k] or _keys(hp0[k]) == _keys(hp1[k]))]
+        ok = not changed
+        res["obligations"].append({"name": tag + "/constructor hyper-parameters unchanged by path()", "verdict": "unsat" if ok else "sat", "how": "identity / term-identity", "changed": changed})
+        if not ok:
+            rep = {"kind": "path-effects", "family": family, "shape": list(shape), "batch_size": batch_size}
+            if replay(rep):
+                res["violations"].append({"signature": f"{PROP}:{family}:path-modifies-hyperparams", "what": f"{family}.path() leaves the constructor hyper-parameter(s) {changed} modified: a second path on the same object differs from the first", "replay": rep})
+            else:
+                res["obligations"][-1]["verdict"] = "inconclusive"
+        break
+    res["samples"].append({"config": tag})
+    return res
+
+
+NAMED_AFFINITIES = [("LinearMMD", "kernel", k) for k in ("linear", "rbf", "poly", "polynomial", "sigmoid", "laplacian", "cosine", "additive_chi2", "chi2")] + \
+                   [("LinearWasserstein", "metric", m) for m in ("euclidean", "sqeuclidean", "cosine", "manhattan", "chebyshev", "cityblock", "l1", "l2")] + \
+                   [("KernelRIM", "base_kernel", k) for k in ("linear", "rbf", "cosine", "laplacian")]
+
+
+def job_effects_named():
+    """CONCRETE float64 witness (the symbolic effects jobs stub scikit-learn's pairwise functions): with every NAMED kernel / metric,
+    fit, fit_predict, predict_proba and score leave the caller's float array bit-for-bit unchanged"""
+    res = _new()
+    for cname, attr, name in NAMED_AFFINITIES:
+        res["paths"] += 1
+        rep_ = {"kind": "effects-named", "cls": cname, "attr": attr, "name": name}
+        bad = replay(rep_)
+        res["obligations"].append({"name": f"effects-named/{cname}({attr}={name!r}): caller's X untouched by fit / predict_proba / score", "verdict": "sat" if bad else "unsat", "how": "concrete float64 run"})
+        if bad:
+            res["violations"].append({"signature": f"{PROP}:{cname}:modifies-input:{name}", "what": f"{cname}({attr}={name!r}) modifies the caller's data array in place", "replay": rep_})
+    res["samples"].append({"cases": len(NAMED_AFFINITIES)})
+    return res
+
+
 def job_effects(family, shape, gemini, batch_size, hyper=None):
     loader.install()
     res = _new()
@@ -468,12 +526,53 @@ def replay(rep, verbose=False):
         return any(v["replay"].get("name") == rep["name"] and v["replay"].get("short") == rep["short"] for v in job_params()["violations"])
     if kind == "kauri":
         return bool(job_kauri()["violations"])
+    if kind == "effects-named":
+        lin = loader.real("linear._linear_geminis")
+        cls_ = getattr(lin, rep["cls"])
+        rng = np.random.RandomState(0)
+        rs = np.random.RandomState(3)
+        Xn = np.abs(rs.normal(size=(14, 3))) + 0.1          # positive entries: the chi2 kernels need them
+        pristine = Xn.copy()
+        try:
+            m = cls_(n_clusters=2, max_iter=2, random_state=0, **{rep["attr"]: rep["name"]})
+            m.fit(Xn)
+            ok = np.array_equal(Xn, pristine)
+            m.predict_proba(Xn)
+            m.score(Xn)
+            m.fit_predict(Xn)
+            ok = ok and np.array_equal(Xn, pristine)
+        except Exception as e:
+            if verbose:
+                print("raised", type(e).__name__, e)
+            return False      # whether this name is accepted at all is not this clause's subject
+        if verbose:
+            print(rep["cls"], rep["name"], "max |X - pristine| =", float(np.abs(Xn - pristine).max()))
+        return not ok
     family, shape = rep["family"], tuple(rep["shape"])
     cls, mod = cm.get_class(family, symbolic=False)
     dm = cm.dims(family, shape)
     rng = np.random.RandomState(0)
     n, d = max(dm["n"], 6), max(dm["d"], 2) if cm.BASE[family] != "kernelrim" else 2
     X = rng.normal(size=(n, d))
+    if kind == "path-effects":
+        import warnings
+        Xp = np.vstack([rng.normal(size=(12, 3)) + [3, 0, 0], rng.normal(size=(12, 3)) - [3, 0, 0]])
+        kw = dict(n_clusters=2, max_iter=5, random_state=3, alpha=0.05, batch_size=rep.get("batch_size"))
+        if cm.BASE[family] == "smlp":
+            kw["n_hidden_dim"] = 3
+        if family in ("SparseLinearModel", "SparseMLPModel"):
+            kw["gemini"] = "mmd_ova"
+        with warnings.catch_warnings():
+            warnings.simplefilter("ignore")
+            m = cls(**kw)
+            before = dict(m.get_params())
+            r1 = m.path(Xp, min_features=1)
+            after = dict(m.get_params())
+            r2 = m.path(Xp, min_features=1)
+        bad = any(before[k] != after[k] for k in before if isinstance(before[k], (int, float, str, bool, type(None)))) or list(r1[3]) != list(r2[3])
+        if verbose:
+            print("alpha before", before["alpha"], "after path", after["alpha"], "; alphas of a second path on the same object start at", r2[3][:1], "instead of", r1[3][:1])
+        return bad
     if kind == "history-param":
         import copy
         base = dict(n_clusters=2, max_iter=3, random_state=7)
@@ -571,11 +670,17 @@ def jobs(tier):
     for fam, sh, gem in [("LinearModel", (3, 2, 2), "mmd_ova"), ("SparseLinearModel", (3, 2, 2), "mi"), ("Douglas", (3, 1, 1, 2), "mi")] + ([] if q else [("MLPModel", (3, 1, 2, 2), "mi"), ("RIM", (3, 2, 2), "mi")]):
         out.append({"name": f"effects/{fam}/batch-larger-than-n", "target": "checks.c12:job_effects", "kwargs": dict(family=fam, shape=sh, gemini=gem, batch_size=5), "timeout": 280})
         out.append({"name": f"history/{fam}/len1/batch-larger-than-n", "target": "checks.c12:job_history", "kwargs": dict(family=fam, shape=sh, gemini=gem, batch_size=4, length=1), "timeout": 280})
+    for fam, sh, bs, outer in [("SparseLinearModel", (3, 2, 2), None, 2), ("SparseMLPModel", (3, 2, 1, 2), None, 0), ("SparseLinearModel", (3, 2, 2), 2, 2), ("SparseLinearModel", (3, 2, 2), None, 0)]:
+        # (the sparse MLP with two outer steps forks through the hierarchical prox for minutes: its path wrapper is exercised with no step)
+        out.append({"name": f"path-effects/{fam}/bs{bs}/outer{outer}", "target": "checks.c12:job_path_effects", "kwargs": dict(family=fam, shape=sh, batch_size=bs, outer=outer), "timeout": 280})
+    out.append({"name": "effects-named", "target": "checks.c12:job_effects_named", "kwargs": {}, "timeout": 280})
     hp = [("KernelRIM", (3, 2), {"base_kernel": "linear"}, {"base_kernel": "rbf", "base_kernel_params": {"gamma": 0.5}}, False),
           ("KernelRIM", (3, 2), {"base_kernel": "rbf", "base_kernel_params": {"gamma": 0.5}}, {"base_kernel": "rbf", "base_kernel_params": {"gamma": 2.0}}, False),
           ("KernelRIM", (3, 2), {"base_kernel": "linear"}, {"base_kernel": "linear"}, True),
           ("LinearMMD", (3, 2, 2), {"kernel": "rbf", "kernel_params": {"gamma": 0.5}}, {"kernel": "rbf", "kernel_params": {"gamma": 2.0}}, False),
-          ("LinearModel", (3, 2, 2), {}, {}, True), ("MLPModel", (3, 2, 1, 2), {}, {}, True)]
+          ("LinearModel", (3, 2, 2), {}, {}, True), ("MLPModel", (3, 2, 1, 2), {}, {}, True),
+          # hyper-parameters that are switched OFF again: nothing derived from them at the first fit may survive
+          ("SparseLinearModel", (3, 3, 2), {"groups": [[0, 1], [2]]}, {"groups": None}, False), ("SparseLinearModel", (3, 3, 2), {"groups": None}, {"groups": [[0, 2], [1]]}, False)]
     for fam, sh, ha, hb, ed in hp:
         out.append({"name": f"history-param/{fam}/{'edit-X' if ed else 'set_params'}/{abs(hash(str(hb))) % 1000}", "target": "checks.c12:job_history_param",
                     "kwargs": dict(family=fam, shape=sh, hyper_a=ha, hyper_b=hb, edit_data=ed), "timeout": 280})
